@@ -1816,6 +1816,163 @@ fn second_process(args: &Args, sink: &mut Sink, c: &Case, bytes: &[u8], k: usize
     }
 }
 
+// ---------------------------------------------------------------- the largest stack: 14 user dictionaries
+/// Dictionary ids are 4 bits; 15 marks out-of-vocabulary words, so a system dictionary carries at most 14 user dictionaries.
+/// n user dictionaries (2 entries each: a plain word with its own POS, reading, normalized form, synonym groups; a compound
+/// whose split A / word structure refer to the plain word as U0 and to system word 0) are compiled and loaded together.
+/// For n <= 14 every entry of every dictionary must come back as declared by all three public routes: the lexicon
+/// (get_word_info / get_word_param), MorphemeList::lookup of its index form, and the analysis of its index form (mode C:
+/// the entry itself; mode A on the compound: its two units).  n = 15 must be refused (TooManyDictionaries).
+fn many_case(n: usize, st: u64, verbose: bool) -> Result<(), String> {
+    use sudachi::analysis::mlist::MorphemeList;
+    use sudachi::analysis::stateful_tokenizer::StatefulTokenizer;
+    use sudachi::analysis::Mode;
+    let mut rng = Rng(st);
+    let sys_csv = "複合,0,0,100,複合,名詞,普通名詞,一般,*,*,*,フクゴウ,複合,*,A,*,*,*,*\nの,0,0,200,の,助詞,格助詞,*,*,*,*,ノ,の,*,A,*,*,*,*\n";
+    let sys_bytes = compile_system(sys_csv, "1 1\n0 0 0\n", 0, "c05 many")?;
+    let loaded = match catch(|| DictionaryLoader::read_system_dictionary(&sys_bytes).map(|d| d.to_loaded())) {
+        Ok(Ok(Some(l))) => l,
+        _ => return Err("the system dictionary of the many-dictionaries case does not load".into()),
+    };
+    struct Decl {
+        surface: String,
+        pos: Vec<String>,
+        reading: String,
+        norm: String,
+        syn: Vec<u32>,
+        cost: i16,
+        a: Vec<u32>,
+        ws: Vec<u32>,
+    }
+    let mut users: Vec<Vec<u8>> = vec![];
+    let mut decls: Vec<Vec<Decl>> = vec![];
+    for k in 1..=n {
+        let tail: String = (0..1 + rng.below(2)).map(|_| *rng.pick(&['ぴ', 'そ', 'ぬ', 'ゑ', 'ヰ'])).collect();
+        let w = format!("利用者語{}{}", k, tail);
+        let pos: Vec<String> = ["名詞", "固有名詞", &format!("利用者{}", k), "*", "*", "*"].iter().map(|x| x.to_string()).collect();
+        let syn = vec![k as u32, 1000 + rng.below(1000) as u32];
+        let (c0, c1) = (-(100 + rng.below(100) as i16), -(3000 + rng.below(100) as i16));
+        let plain = Decl { surface: w.clone(), pos: pos.clone(), reading: format!("リヨウシャ{}", k), norm: format!("利用者語{}正規", k), syn: syn.clone(), cost: c0, a: vec![], ws: vec![] };
+        let uid = ((k as u32) << 28) | 0;
+        let comp = Decl { surface: format!("{}複合", w), pos: pos.clone(), reading: format!("リヨウシャ{}フクゴウ", k), norm: format!("{}複合", w), syn: vec![], cost: c1, a: vec![uid, 0], ws: vec![uid, 0] };
+        let csv = format!(
+            "{},0,0,{},{},{},{},{},{}\n{},0,0,{},{},{},{},{},*,C,U0/0,*,U0/0,*\n",
+            plain.surface, plain.cost, plain.surface, pos.join(","), plain.reading, plain.norm, format!("*,A,*,*,*,{}/{}", syn[0], syn[1]),
+            comp.surface, comp.cost, comp.surface, pos.join(","), comp.reading, comp.norm
+        );
+        if verbose {
+            println!("user dictionary {}:\n{}", k, csv);
+        }
+        users.push(compile_user(&loaded, &csv, 0, "c05 many")?);
+        decls.push(vec![plain, comp]);
+    }
+    let jd = match load_with_user(sys_bytes.clone(), users) {
+        Ok(d) => {
+            if n > 14 {
+                // what follows shows what the words of dictionary 15 come back as
+                if verbose {
+                    println!("{} user dictionaries were loaded", n);
+                }
+            }
+            d
+        }
+        Err(e) => {
+            return if n > 14 && e.contains("TooManyDictionaries") { Ok(()) } else { Err(format!("a system dictionary with {} user dictionaries does not load: {}", n, e)) };
+        }
+    };
+    let mut first: Option<String> = None;
+    let mut note = |m: String| {
+        if verbose {
+            println!("{}", m);
+        }
+        if first.is_none() {
+            first = Some(m);
+        }
+    };
+    for (k0, ds) in decls.iter().enumerate() {
+        let k = k0 + 1;
+        for (i, d) in ds.iter().enumerate() {
+            let wid = WordId::new(k as u8, i as u32);
+            let who = format!("word {} ({:?}) of user dictionary {} of {}", i, d.surface, k, n);
+            // route 1: the lexicon
+            match catch(|| jd.lexicon().get_word_info(wid).map(|w| (w, jd.lexicon().get_word_param(wid)))) {
+                Ok(Ok((w, p))) => {
+                    let pos = jd.grammar().pos_list.get(w.pos_id() as usize).cloned().unwrap_or_default();
+                    let a: Vec<u32> = w.a_unit_split().iter().map(|x| x.as_raw()).collect();
+                    let ws: Vec<u32> = w.word_structure().iter().map(|x| x.as_raw()).collect();
+                    if w.surface() != d.surface || pos != d.pos || w.reading_form() != d.reading || w.normalized_form() != d.norm || w.synonym_group_ids() != &d.syn[..] || a != d.a || ws != d.ws || p != (0, 0, d.cost) {
+                        note(format!("{}: get_word_info gives surface {:?} POS {:?} reading {:?} normalized {:?} synonyms {:?} split A {:?} word structure {:?} params {:?}; declared {:?} {:?} {:?} {:?} {:?} {:?} {:?} cost {}", who, w.surface(), pos, w.reading_form(), w.normalized_form(), w.synonym_group_ids(), a, ws, p, d.surface, d.pos, d.reading, d.norm, d.syn, d.a, d.ws, d.cost));
+                    }
+                }
+                other => note(format!("{}: get_word_info fails: {:?}", who, other.map(|r| r.map(|_| ()).map_err(|e| format!("{:?}", e))))),
+            }
+            // routes 2 and 3: lookup of the index form, analysis of the index form
+            type Seen = (u32, bool, Vec<String>, String, String, String, Vec<u32>, String);
+            let see = |m: &sudachi::analysis::morpheme::Morpheme<&JapaneseDictionary>| -> Seen {
+                (m.word_id().as_raw(), m.is_oov(), m.part_of_speech().to_vec(), m.reading_form().to_string(), m.normalized_form().to_string(), m.dictionary_form().to_string(), m.synonym_group_ids().to_vec(), m.surface().to_string())
+            };
+            let want: Seen = (wid.as_raw(), false, d.pos.clone(), d.reading.clone(), d.norm.clone(), d.surface.clone(), d.syn.clone(), d.surface.clone());
+            match catch(|| -> Result<Vec<Seen>, String> {
+                let mut ml = MorphemeList::empty(&jd);
+                let cnt = ml.lookup(&d.surface, sudachi::dic::subset::InfoSubset::all()).map_err(|e| format!("{:?}", e))?;
+                Ok((0..cnt).map(|j| see(&ml.get(j))).collect())
+            }) {
+                Ok(Ok(v)) if v == vec![want.clone()] => {}
+                other => note(format!("{}: MorphemeList::lookup of its index form gives (word id, oov, POS, reading, normalized, dictionary form, synonyms, surface) {:?}; declared {:?}", who, other, want)),
+            }
+            let analyse = |mode: Mode| -> Result<Vec<Seen>, String> {
+                match catch(|| -> Result<Vec<Seen>, String> {
+                    let mut tok = StatefulTokenizer::new(&jd, mode);
+                    tok.reset().push_str(&d.surface);
+                    tok.do_tokenize().map_err(|e| format!("{:?}", e))?;
+                    let ml = tok.into_morpheme_list().map_err(|e| format!("{:?}", e))?;
+                    Ok((0..ml.len()).map(|j| see(&ml.get(j))).collect())
+                }) {
+                    Ok(r) => r,
+                    Err(p) => Err(format!("panic {}", p)),
+                }
+            };
+            match analyse(Mode::C) {
+                Ok(v) if v == vec![want.clone()] => {}
+                other => note(format!("{}: the analysis of its index form (mode C) gives (word id, oov, POS, reading, normalized, dictionary form, synonyms, surface) {:?}; declared {:?}", who, other, want)),
+            }
+            if i == 1 {
+                // mode A: the units of split A -- the plain word of the same dictionary, then system word 0
+                let p = &ds[0];
+                let want_a: Vec<Seen> = vec![
+                    (WordId::new(k as u8, 0).as_raw(), false, p.pos.clone(), p.reading.clone(), p.norm.clone(), p.surface.clone(), p.syn.clone(), p.surface.clone()),
+                    (0, false, ["名詞", "普通名詞", "一般", "*", "*", "*"].iter().map(|x| x.to_string()).collect(), "フクゴウ".into(), "複合".into(), "複合".into(), vec![], "複合".into()),
+                ];
+                match analyse(Mode::A) {
+                    Ok(v) if v == want_a => {}
+                    other => note(format!("{}: the analysis of its index form in mode A gives {:?}; its split A declares {:?}", who, other, want_a)),
+                }
+            }
+        }
+    }
+    if n > 14 {
+        let m = format!("{} user dictionaries were accepted (dictionary id 15 marks out-of-vocabulary words; at most 14 fit)", n);
+        return Err(match first {
+            Some(f) => format!("{}; {}", m, f),
+            None => m,
+        });
+    }
+    match first {
+        Some(f) => Err(f),
+        None => Ok(()),
+    }
+}
+fn many_user_dictionaries(sink: &mut Sink, rng: &mut Rng) {
+    for n in [1usize, 2, 13, 14, 15, 16] {
+        let st = rng.next();
+        let id = sink.case_rust_only(json!({"kind": "c05-many", "n": n, "rng": st}), true);
+        sink.tag(&format!("stack_of_{}_user_dictionaries", n));
+        if let Err(e) = many_case(n, st, false) {
+            sink.fail(id, &e, "");
+        }
+    }
+}
+
 fn case_from_state(state: u64, user: bool, big: bool, findings: bool, special: Option<usize>, sink: &mut Sink) -> Case {
     let mut r = Rng(state);
     gen_case_with(&mut r, sink, user, big, findings, special)
@@ -1824,7 +1981,7 @@ fn case_from_state(state: u64, user: bool, big: bool, findings: bool, special: O
 pub fn run(args: &Args) {
     let mut sink = Sink::new("C05", &args.out, &["Model.Codec", "Model.CodecIO", "Model.CodecResolve", "Model.CodecCsv", "Model.CodecCheck"], args.seed, &args.tier);
     sink.shard_size = 40;
-    sink.rule("random lexicons of 1..7 rows (strings of 1..3 chars or 126/127/128/129/255..257/32766/32767 UTF-16 units mixing kana, kanji, ASCII, U+7F/80/7FF/800/D7FF/E000/FFFF and astral characters, \\uXXXX and \\u{X} escapes, forms empty / equal to the headword / different, index form of 126..128 bytes, arrays of 0/1/2/63/64/65/127 ids, numeric, U-prefixed and inline references, dictionary-form references, synonym column present/absent/empty; form columns drawn from the texts that are special elsewhere in the format) x matrices 1..5 x 1..5 (non-square, duplicated and missing cells, extreme costs) x system / user dictionary; non-trivial = at least two rows (system) or a user dictionary; distinct by generated Coq term; first the directed lexicons (7 rows each: every form-column set x every special text, system and user; 6 rows each: split A / split B / word structure / synonym arrays of 0, 1, 63, 64, 65, 127 items in rotating positions, system and user); every entry is read back with all fields and with 22 field subsets that skip stored arrays / texts and request later fields, each requested field against the declared value; then the command-line and Python build routes with 2..3 lexicon files in 7 orders (non-alphabetical, repeated path, sub-directory, alphabetical) for system and user dictionaries");
+    sink.rule("random lexicons of 1..7 rows (strings of 1..3 chars or 126/127/128/129/255..257/32766/32767 UTF-16 units mixing kana, kanji, ASCII, U+7F/80/7FF/800/D7FF/E000/FFFF and astral characters, \\uXXXX and \\u{X} escapes, forms empty / equal to the headword / different, index form of 126..128 bytes, arrays of 0/1/2/63/64/65/127 ids, numeric, U-prefixed and inline references, dictionary-form references, synonym column present/absent/empty; form columns drawn from the texts that are special elsewhere in the format) x matrices 1..5 x 1..5 (non-square, duplicated and missing cells, extreme costs) x system / user dictionary; non-trivial = at least two rows (system) or a user dictionary; distinct by generated Coq term; first the directed lexicons (7 rows each: every form-column set x every special text, system and user; 6 rows each: split A / split B / word structure / synonym arrays of 0, 1, 63, 64, 65, 127 items in rotating positions, system and user); every entry is read back with all fields and with 22 field subsets that skip stored arrays / texts and request later fields, each requested field against the declared value; then the command-line and Python build routes with 2..3 lexicon files in 7 orders (non-alphabetical, repeated path, sub-directory, alphabetical) for system and user dictionaries; stacks of 1, 2, 13, 14 user dictionaries (every entry through the lexicon, MorphemeList::lookup and the analysis of its index form in modes C and A) and 15 / 16 user dictionaries, which must be refused");
     if let Some(p) = &args.replay {
         let v: Value = serde_json::from_str(&std::fs::read_to_string(p).unwrap()).unwrap();
         let case = &v["case"];
@@ -1833,6 +1990,11 @@ pub fn run(args: &Args) {
             if let Ok(b) = b {
                 std::fs::write(case["out"].as_str().unwrap(), b).unwrap();
             }
+            sink.finish();
+            return;
+        }
+        if case["kind"] == "c05-many" {
+            println!("verdict: {:?}", many_case(case["n"].as_u64().unwrap_or(14) as usize, case["rng"].as_u64().unwrap_or(0), true));
             sink.finish();
             return;
         }
@@ -1885,6 +2047,7 @@ pub fn run(args: &Args) {
             }
         }
     }
+    many_user_dictionaries(&mut sink, &mut rng);
     // the other public routes to the compiler (command-line tool, Python functions) with several lexicon files
     routes::run_routes(&mut sink, &mut rng, args);
     malformed(&mut sink, &mut rng, args.n(12, 60));
